@@ -96,7 +96,7 @@ func replayInto(o *output, stream string, raw json.RawMessage, knownID string) e
 	case stream == "qcase" || (stream == "ucase" && c.Strategy == "update"):
 		runUpdateCase(o, c.Universe, c.Manifest, cfgFromJSON(c.Config), c.IgnoreDev, knownID)
 	case c.Universe != nil && c.Universe.Sys == resolve.NPM:
-		runFixNpm(o, c.Universe, c.Manifest, c.Vulns, cfgFromJSON(c.Config))
+		runFixNpm(o, c.Universe, c.Manifest, c.Vulns, cfgFromJSON(c.Config), knownID)
 	case c.Universe != nil:
 		runFixMaven(o, c.Universe, c.Manifest, c.Vulns, cfgFromJSON(c.Config), knownID)
 	default:
@@ -171,6 +171,7 @@ func doReplay(path string) {
 
 type knownEntry struct {
 	ID      string          `json:"id"`
+	Status  string          `json:"status"`
 	Stream  string          `json:"stream"`
 	Witness json.RawMessage `json:"witness"`
 }
@@ -186,7 +187,13 @@ func replayKnown(o *output, path string) {
 		panic(err)
 	}
 	for _, e := range es {
-		if err := replayInto(o, e.Stream, e.Witness, e.ID); err != nil {
+		id := e.ID
+		if e.Status == "fixed" {
+			// a repaired defect: its witness is part of the regression corpus, which runs first and is
+			// judged at full strength like any generated case
+			id = ""
+		}
+		if err := replayInto(o, e.Stream, e.Witness, id); err != nil {
 			panic(err)
 		}
 	}
